@@ -80,6 +80,13 @@ BijClauses(e) ==
     ELSE IF Cardinality(ArrSet(e.outs)) = (IF e.t = 2 THEN 256 ELSE 65536) /\ Len(e.outs) = (IF e.t = 2 THEN 256 ELSE 65536)
          THEN {} ELSE {"C10.secrecy-not-uniform"}
 
+\* [C10] "fewer than t shares carry no information": the t-1 coefficients of the 32 per-byte polynomials (recovered by the driver
+\* from t shares, over several splits with different randomness) must be independent: no two slots agree in every split, none is constant
+IndepClauses(e) ==
+    IF e.outcome # "ok" THEN {"C10.split-terminates-with-n-shares"}
+    ELSE (IF e.wrong_secret = 0 THEN {} ELSE {"C10.reconstruct-wrong"})
+         \cup (IF e.dup = 0 /\ e.constant = 0 THEN {} ELSE {"C10.coefficients-not-independent"})
+
 AbnormalClauses(e) ==
     IF pend.what \in {"split", "bij"} /\ ValidParams(pend.t, pend.n) THEN {"C10.split-terminates-with-n-shares"}
     ELSE {"C10.abnormal-termination"}
@@ -109,6 +116,9 @@ Step(e) ==
         /\ viol' = Note(BijClauses(e), e) /\ pend' = NoPend
         /\ nbij' = nbij + (IF BijApplies(e) THEN 1 ELSE 0) /\ nbijSkip' = nbijSkip + (IF BijApplies(e) THEN 0 ELSE 1)
         /\ UNCHANGED <<nsplit, ncombine, ndesign, ndesignEq, ngf>>
+    [] e.op = "indep" ->
+        /\ viol' = Note(IndepClauses(e), e) /\ pend' = NoPend /\ nbij' = nbij + 1
+        /\ UNCHANGED <<nsplit, ncombine, ndesign, ndesignEq, ngf, nbijSkip>>
     [] e.op = "abnormal" ->
         /\ viol' = Note(AbnormalClauses(e), e) /\ pend' = NoPend
         /\ UNCHANGED <<nsplit, ncombine, ndesign, ndesignEq, ngf, nbij, nbijSkip>>
